@@ -118,6 +118,115 @@ def flush_guard(ck, prefix):
     GUARD.calls = 0; GUARD.events = []
 
 
+# ------------------------------------------------------------------------------------------
+# value semantics: the model's operations return fresh values.  (i) the result of a non-in-place operation must be a new
+# object that shares no memory with any operand; (ii) mutating the result in place must leave every operand bit-identical;
+# (iii) histories: a query repeated on an object after an in-place modification must equal the query on a fresh copy.
+def fresh_copy(T, t):
+    return T([(n, l, np.array(c, copy=True)) for n, l, c in t.coefflist])
+
+
+def sharing(res, operands):
+    """names of the operands that the result aliases (same object, same coefflist, or overlapping coefficient memory)"""
+    bad = []
+    for name, o in operands.items():
+        if res is o or res.coefflist is o.coefflist: bad.append(name + " (same object)"); continue
+        if any(np.shares_memory(rc, oc) for _, _, rc in res.coefflist for _, _, oc in o.coefflist): bad.append(name + " (shared array memory)")
+    return bad
+
+
+def same_expansion(x, y, rtol=1e-12):
+    xl, yl = list(x.coefflist), list(y.coefflist)
+    if [(int(n), int(l)) for n, l, _ in xl] != [(int(n), int(l)) for n, l, _ in yl]: return False
+    for (_, _, a), (_, _, b) in zip(xl, yl):
+        if a.shape != b.shape or not np.allclose(a, b, rtol=rtol, atol=rtol * (1 + float(np.abs(b).max()) if b.size else 1)): return False
+    return True
+
+
+def small_like(nr, c, scale=0.2):
+    return (scale * (nr.normal(size=c.shape) + 1j * nr.normal(size=c.shape))).astype(c.dtype) if np.iscomplexobj(c) else \
+        (scale * nr.normal(size=c.shape)).astype(c.dtype)
+
+
+def mutate_in_place(T, t, route, nr, rng):
+    """modify the expansion t IN PLACE (same object) by one of the library's / numpy's in-place routes, keeping its (n,l) structure;
+    t must be matrix valued (k x k, k >= 2) with distinct n for the slicing routes.  Returns a description."""
+    ents = list(t.coefflist)
+    k = ents[0][2].shape[1] if ents[0][2].ndim == 3 else 0
+    if route == "iadd":
+        t += T([(n, l, small_like(nr, c)) for n, l, c in ents])
+    elif route == "isub":
+        t -= T([(n, l, small_like(nr, c)) for n, l, c in ents[:max(1, len(ents) - 1)]])
+    elif route == "setitem":          # T[0, 0] = S
+        i, j = rng.randrange(k), rng.randrange(k)
+        t[i, j] = T([(n, l, c[:, i, j] + small_like(nr, c[:, i, j])) for n, l, c in ents])
+        return "T[%d,%d] = S" % (i, j)
+    elif route == "sliceview-iadd":   # T[1:2, 1:2] += dV
+        i = rng.randrange(k)
+        v = t[i:i + 1, i:i + 1]
+        v += T([(n, l, small_like(nr, c[:, i:i + 1, i:i + 1])) for n, l, c in ents])
+        return "T[%d:%d,%d:%d] += dV" % (i, i + 1, i, i + 1)
+    elif route == "scalarproduct-inplace":
+        T.scalarproductcoeff(1.0 + 0.3 * nr.normal(), t, inplace=True)
+    elif route == "array-edit":
+        n, l, c = ents[rng.randrange(len(ents))]
+        c += small_like(nr, c)
+    elif route == "ildot":
+        t.ildot(np.eye(k) + 0.2 * nr.normal(size=(k, k)))
+    elif route == "irdot":
+        t.irdot(np.eye(k) + 0.2 * nr.normal(size=(k, k)))
+    else:
+        raise KeyError(route)
+    return route
+
+
+ROUTES = ("iadd", "isub", "setitem", "sliceview-iadd", "scalarproduct-inplace", "array-edit", "ildot", "irdot")
+
+
+def alias_case(ck, prefix, label, res, operands, T, nr, rng):
+    """res = result of a NON in-place operation on the operands (dict name -> expansion object)"""
+    ck.case(key=("alias", label, len(ck.keys)), nontrivial=True, kind="fresh-result:%s" % label.split("[")[0])
+    bad = sharing(res, operands)
+    if bad:
+        ck.violation("value semantics: the result of %s aliases its operand %s -- an in-place operation on the result rewrites the operand"
+                     % (label, ", ".join(bad)), {"op": label, "aliases": bad}, key=prefix + "-result-aliases-operand")
+        return
+    # mutate the result through in-place routes; the operands must stay bit-identical
+    snap = {k: _snap(v) for k, v in operands.items()}
+    try:
+        if len(res.coefflist):
+            c0 = res.coefflist[0][2]
+            route = rng.choice(["array-edit", "iadd", "scalarproduct-inplace"] + (["ildot", "irdot"] if c0.ndim == 3 and c0.shape[1] == c0.shape[2] and c0.shape[1] >= 1 else []))
+            if np.issubdtype(c0.dtype, np.integer): route = "array-edit-int"
+            if route == "array-edit-int": res.coefflist[0][2][...] += 1
+            else: mutate_in_place(T, res, route, nr, rng)
+        res += res.copy()
+    except (ArithmeticError, ValueError, TypeError, IndexError):
+        pass      # the mutation is only a probe; the operations themselves are checked elsewhere
+    for k, v in operands.items():
+        if _snap(v) != snap[k]:
+            ck.violation("value semantics: modifying the result of %s in place changed the operand %s" % (label, k),
+                         {"op": label, "operand": k}, key=prefix + "-result-aliases-operand")
+
+
+def history_case(ck, prefix, qname, query, t, route, T, nr, rng, extra_check=None):
+    """query(t); modify t in place by `route`; query(t) again must equal query(fresh copy of the modified t)"""
+    r1 = query(t)
+    desc = mutate_in_place(T, t, route, nr, rng)
+    r2 = query(t)
+    ref = query(fresh_copy(T, t))
+    ok = same_expansion(r2, ref) if hasattr(r2, "coefflist") else bool(np.allclose(r2, ref, rtol=1e-12, atol=1e-12))
+    ck.case(key=("history", qname, route, len(ck.keys)), nontrivial=True, kind="history:%s:%s" % (qname, route))
+    if not ok:
+        stale = same_expansion(r2, r1) if hasattr(r2, "coefflist") else bool(np.allclose(r2, r1))
+        ck.violation("history dependence: %s repeated on the same object after the in-place modification '%s' differs from %s of a fresh copy%s"
+                     % (qname, desc, qname, " (it is the result from BEFORE the modification)" if stale else ""),
+                     {"query": qname, "route": desc, "stale": stale, "nl": [(int(n), int(l)) for n, l, _ in t.coefflist]},
+                     key=prefix + "-history-" + qname.split("(")[0])
+    elif extra_check is not None:
+        extra_check(t, r2)
+
+
 class RadialPowers(dict):
     """fnu[(n,l)](r) = r^n for every (n,l): magnitude dependent, the same for every l, multiplicative in n"""
     def __missing__(self, key):
